@@ -47,30 +47,12 @@ def canonical_sintvar(v):
     return bytes([(o | 0x80) if i < len(octets) - 1 else o for i, o in enumerate(octets)])
 
 
-def septets_needed(vc, v, first_payload_bits):
-    """number of octets of the canonical form = function of the bit length; evaluated under the path condition (the bin()
-    model has fixed the position of the top bit on each path), None if not decided"""
-    if vc.mode == "native":
-        return None
-    from pyvc.values import SInt, SBit
-    from pyvc import core
-
-    vv = SInt.lift(v)
-    top = -1
-    for i in reversed(range(len(vv.bits))):
-        b = vv.bits[i]
-        q = core.norm_under_pc(b.p) if isinstance(b, SBit) else (core.ONE if b else core.ZERO)
-        if not q:
-            continue
-        if q == core.ONE:
-            top = i
-            break
-        return None  # the position of the most significant set bit is not decided on this path
-    bl = top + 1
-    n = 1
-    while first_payload_bits + 7 * (n - 1) < bl:
-        n += 1
-    return n
+def shortest_length_clause(vc, v, first_payload_bits, n, most=5):
+    """the octet count n (a literal on each path) is the one of the canonical form: the first octet carries
+    first_payload_bits bits of the value and every further octet seven, so a k+1-th octet is present exactly when the value
+    does not fit in first_payload_bits + 7 (k - 1) bits.  Stated on the value, not on how the code under contract happened to
+    fork on it (bin() of the value, a shift loop, comparisons with thresholds ...)."""
+    return vc.and_(1 <= n <= most, *[vc.iff(v >= (1 << (first_payload_bits + 7 * (k - 1))), n > k) for k in range(1, most)])
 
 
 @contract("MBXML.uintvar", "okdmr.dmrlib.motorola.mbxml:MBXML.write_uintvar", ["C14", "C15", "C19"])
@@ -84,8 +66,7 @@ def uintvar(vc, suffix):
     if vc.mode == "native":
         vc.prove("canonical_shortest_septet_sequence", w == canonical_uintvar(v))
     else:
-        n = septets_needed(vc, v, 7)
-        vc.prove("canonical_shortest_septet_sequence", n is not None and len(w) == n and vc.and_(*[vc.eq(vc.bitlist(w[i], 8)[0], 1 if i < len(w) - 1 else 0) for i in range(len(w))]))
+        vc.prove("canonical_shortest_septet_sequence", vc.and_(shortest_length_clause(vc, v, 7, len(w)), *[vc.eq(vc.bitlist(w[i], 8)[0], 1 if i < len(w) - 1 else 0) for i in range(len(w))]))
 
 
 uintvar.shapes = lambda tier: [dict(suffix=0), dict(suffix=2)]
@@ -105,8 +86,7 @@ def sintvar(vc, negative):
     if vc.mode == "native":
         vc.prove("canonical_shortest_septet_sequence", w == canonical_sintvar(v))
     else:
-        n = septets_needed(vc, mag, 6)
-        vc.prove("canonical_shortest_septet_sequence", n is not None and len(w) == n)
+        vc.prove("canonical_shortest_septet_sequence", shortest_length_clause(vc, mag, 6, len(w)))
 
 
 sintvar.shapes = lambda tier: [dict(negative=False), dict(negative=True)]
